@@ -15,9 +15,8 @@ Open Scope list_scope.
 Section Sb.
   Variable table : list N.
 
-  Definition sb_all (l : bytes) : bool := forallb (fun b => match sb_lookup table b with Some _ => true | None => false end) l.
-  Definition sb_chars (l : bytes) : list N :=
-    flat_map (fun b => match sb_lookup table b with Some c => [c] | None => [] end) l.
+  Local Notation sb_all := (Decode.sb_all table).
+  Local Notation sb_chars := (Decode.sb_chars table).
 
   Lemma sb_scan_ok l : forall i acc, sb_all l = true -> sb_scan table i l acc = (acc ++ sb_chars l, None).
   Proof.
